@@ -21,6 +21,35 @@ class Undecided(Exception):
     pass
 
 
+class Thrown(Undecided):
+    """a throw expression was reached on the evaluated path"""
+
+    def __init__(self, node=None, what='throw reached'):
+        Undecided.__init__(self, what)
+        self.node = node
+
+
+class Stream:
+    """a constant byte stream standing for a FILE* / reader over known contents"""
+
+    def __init__(self, data):
+        self.data = bytes(data)
+        self.pos = 0
+
+
+class Rec:
+    """a local object of class / union type: named fields (a union has one shared slot)"""
+
+    def __init__(self, is_union=False):
+        self.f = {}
+        self.is_union = is_union
+
+
+class Heap:
+    def __init__(self, size):
+        self.size = size
+
+
 class Fault(Exception):
     """the folded evaluation reaches undefined behaviour on this constant input (a read outside a
     constant array, an out-of-range shift): a definite defect, not an analysis gap"""
@@ -207,6 +236,19 @@ class PEval:
                                 nxt = v + 1
 
     # ------------------------------------------------------------------ helpers
+    def record_kind(self, t):
+        nm = strip_targs(t or '').replace('const ', '').strip().split('::')[-1]
+        if not nm or not nm[0].isalpha():
+            return None
+        if not hasattr(self, '_records'):
+            self._records = {}
+            for u in self.units:
+                for r in u.roots:
+                    for e in walk(r):
+                        if e.get('kind') == 'CXXRecordDecl' and e.get('name') and e.get('completeDefinition'):
+                            self._records.setdefault(e['name'], e.get('tagUsed'))
+        return self._records.get(nm)
+
     def wrap(self, v, t):
         if not isinstance(v, int) or isinstance(v, bool):
             return int(v) if isinstance(v, bool) else v
@@ -349,6 +391,8 @@ class PEval:
             except KeyError:
                 pass
             if rd.get('kind') == 'VarDecl':
+                if rd.get('name') == 'npos':
+                    return (1 << 64) - 1
                 return self.global_const(rd)
             if rd.get('kind') in ('FunctionDecl', 'CXXMethodDecl'):
                 return ('fn', rd)
@@ -441,6 +485,11 @@ class PEval:
                 return base       # anonymous struct / union member: same object
             if isinstance(base, Vec) and n.get('name') in base.fields:
                 return Ord(base.fields.index(n.get('name')), base.side)
+            if isinstance(base, Rec):
+                key_ = '__u' if base.is_union else n.get('name')
+                if key_ in base.f:
+                    return base.f[key_]
+                raise Undecided('read of the unset member %s' % n.get('name'))
             raise Undecided('member access %s' % n.get('name'))
         if k in ('CallExpr', 'CXXMemberCallExpr', 'CXXOperatorCallExpr'):
             return self.call(n, env, depth)
@@ -448,6 +497,10 @@ class PEval:
             v = int_value(n)
             if v is not None:
                 return v
+            if n.get('name') == 'sizeof' and kids(n):
+                v = sizeof_type(dtype(strip(kids(n)[0])) or qtype(strip(kids(n)[0])))
+                if v is not None:
+                    return v
         if k == 'CXXScalarValueInitExpr':
             return 0
         if k == 'InitListExpr':
@@ -493,6 +546,14 @@ class PEval:
         if s0.get('kind') == 'DeclRefExpr' and rd is not None:
             self.store(env, rd['id'], val)
             return
+        if s0.get('kind') == 'MemberExpr' and kids(s0):
+            try:
+                base = self.ev(kids(s0)[0], env, depth)
+            except Undecided:
+                base = None
+            if isinstance(base, Rec):
+                base.f['__u' if base.is_union else s0.get('name')] = val
+                return
         if s0.get('kind') == 'UnaryOperator' and s0.get('opcode') == '*':
             p = self.ev(kids(s0)[0], env, depth)
             if isinstance(p, Ref):
@@ -747,6 +808,57 @@ class PEval:
                 v = self.ev(a, env, depth)
                 vals.append(v)
             return Str(c_printf(fmt.cstr(), vals))
+        if name in ('stoull', 'stoul', 'stoll', 'stol', 'stoi') and len([a for a in args if a.get('kind') != 'CXXDefaultArgExpr']) == 1:
+            v = self.ev(args[0], env, depth)
+            if isinstance(v, (Str, Lit)):
+                txt = (bytes(v.b) if isinstance(v, Str) else v.cstr()).lstrip(b' \t\n\r\v\f')
+                import re as _re
+                m_ = _re.match(rb'[+-]?[0-9]+', txt)
+                if not m_:
+                    raise Thrown(n, '%s of text without digits (invalid_argument)' % name)
+                val = int(m_.group(0))
+                bits = 32 if name == 'stoi' else 64
+                if name in ('stoull', 'stoul'):
+                    if abs(val) >= 1 << 64:
+                        raise Thrown(n, '%s out of range' % name)
+                    return val & ((1 << 64) - 1)
+                if not -(1 << (bits - 1)) <= val < (1 << (bits - 1)):
+                    raise Thrown(n, '%s out of range' % name)
+                return val
+        if name == 'malloc' and len(args) == 1:
+            v = self.ev(args[0], env, depth)
+            if isinstance(v, int):
+                self.allocs = getattr(self, 'allocs', []) + [v]
+                return Heap(v)
+        if name in ('freadx', 'fread') and len(args) >= 3:
+            st = self.ev(args[0], env, depth) if name == 'freadx' else None
+            if isinstance(st, Stream):
+                dst = self.ev(args[1], env, depth)
+                cnt = self.ev(args[2], env, depth)
+                if not isinstance(cnt, int):
+                    raise Undecided('freadx size')
+                if isinstance(dst, Heap) and cnt > dst.size:
+                    raise Fault('freadx stores %d bytes into a block of %d bytes' % (cnt, dst.size))
+                if st.pos + cnt > len(st.data):
+                    raise Thrown(n, 'freadx needs %d bytes, the file has %d left' % (cnt, len(st.data) - st.pos))
+                st.pos += cnt
+                self.reads = getattr(self, 'reads', []) + [cnt]
+                return None
+        if name in ('fgetc', 'getc') and len(args) == 1:
+            st = self.ev(args[0], env, depth)
+            if isinstance(st, Stream):
+                if st.pos >= len(st.data):
+                    return -1
+                st.pos += 1
+                return st.data[st.pos - 1]
+        if name == 'fgets' and len([a for a in args if a.get('kind') != 'CXXDefaultArgExpr']) == 1:
+            st = self.ev(args[0], env, depth)
+            if isinstance(st, Stream):
+                j = st.data.find(b'\n', st.pos)
+                end = len(st.data) if j < 0 else j + 1
+                out = Str(st.data[st.pos:end])
+                st.pos = end
+                return out
         if name in ('strlen',) and len(args) == 1:
             v = self.ev(args[0], env, depth)
             if isinstance(v, Lit):
@@ -851,6 +963,10 @@ class PEval:
     def call_function(self, fd, args, env, depth, evaluated=False):
         frame = self.bind(params_of(fd), args, env, depth, evaluated)
         try:
+            frame.setdefault('__this__', self.lookup(env, '__this__'))
+        except KeyError:
+            pass
+        try:
             self.run([body_of(fd)], frame, depth + 1)
         except _Return as r:
             v = r.v
@@ -932,6 +1048,48 @@ class PEval:
         if name == 'pop_back':
             s.b = s.b[:-1]
             return None
+        if name == 'substr':
+            pos = vals[0] if vals else 0
+            cnt = vals[1] if len(vals) > 1 else None
+            if not isinstance(pos, int) or pos > len(s.b):
+                raise Thrown(n, 'substr position past the end (out_of_range)')
+            return Str(s.b[pos:] if cnt is None or cnt >= (1 << 63) else s.b[pos:pos + cnt])
+        if name == 'compare':
+            def _b(v):
+                return bytes(v.b) if isinstance(v, Str) else v.cstr() if isinstance(v, Lit) else None
+            if len(vals) == 1:
+                a_, b_ = bytes(s.b), _b(vals[0])
+            elif len(vals) == 3 and isinstance(vals[0], int) and isinstance(vals[1], int):
+                if vals[0] > len(s.b):
+                    raise Thrown(n, 'compare position past the end (out_of_range)')
+                a_, b_ = bytes(s.b[vals[0]:vals[0] + vals[1]]), _b(vals[2])
+            else:
+                raise Undecided('compare form')
+            if b_ is None:
+                raise Undecided('compare operand')
+            return (a_ > b_) - (a_ < b_)
+        if name in ('find', 'rfind', 'find_first_of', 'find_last_of', 'find_first_not_of', 'find_last_not_of'):
+            pat = vals[0]
+            patb = bytes([pat & 0xFF]) if isinstance(pat, int) else bytes(pat.b) if isinstance(pat, Str) else pat.cstr() if isinstance(pat, Lit) else None
+            if patb is None or len(vals) > 1:
+                raise Undecided('std::string::%s form' % name)
+            hay = bytes(s.b)
+            NPOS = (1 << 64) - 1
+            if name == 'find':
+                j = hay.find(patb)
+            elif name == 'rfind':
+                j = hay.rfind(patb)
+            else:
+                neg = 'not' in name
+                idxs = [i for i, c in enumerate(hay) if (c in patb) != neg]
+                j = -1 if not idxs else (idxs[0] if 'first' in name else idxs[-1])
+            return NPOS if j < 0 else j
+        if name in ('starts_with', 'ends_with'):
+            pat = vals[0]
+            patb = bytes([pat & 0xFF]) if isinstance(pat, int) else bytes(pat.b) if isinstance(pat, Str) else pat.cstr() if isinstance(pat, Lit) else None
+            if patb is None:
+                raise Undecided('std::string::%s form' % name)
+            return 1 if (bytes(s.b).startswith(patb) if name == 'starts_with' else bytes(s.b).endswith(patb)) else 0
         raise Undecided('std::string::%s' % name)
 
     # ------------------------------------------------------------------ statements
@@ -952,7 +1110,9 @@ class PEval:
                         continue
                     init = [c for c in kids(vd) if c.get('kind') and not c['kind'].endswith('Attr')]
                     t = dtype(vd) or ''
-                    if init:
+                    if init and 'basic_string' not in t and self.record_kind(t) is not None and strip(init[-1]).get('kind') == 'CXXConstructExpr' and not [c for c in kids(strip(init[-1])) if c.get('kind')]:
+                        v = Rec(self.record_kind(t) == 'union')
+                    elif init:
                         v = self.ev(init[-1], env, depth)
                         if isinstance(v, int):
                             v = self.wrap(v, t)
@@ -960,6 +1120,8 @@ class PEval:
                             v = Str(v.b)
                     elif 'basic_string' in t:
                         v = Str()
+                    elif self.record_kind(t) is not None:
+                        v = Rec(self.record_kind(t) == 'union')
                     else:
                         v = ('uninit',)
                     env[vd['id']] = v
@@ -995,7 +1157,7 @@ class PEval:
                 self.run([kids(s)[0]], env, depth)
                 continue
             if k == 'CXXThrowExpr' or (k == 'ExprWithCleanups' and strip(s).get('kind') == 'CXXThrowExpr'):
-                raise Undecided('throw reached')
+                raise Thrown(s)
             if k == 'AttributedStmt':
                 self.run([c for c in kids(s) if c.get('kind') and not c['kind'].endswith('Attr')], env, depth)
                 continue
@@ -1096,6 +1258,9 @@ class PEval:
                 self.ev(inc, inner, depth)
 
     # ------------------------------------------------------------------ entry
-    def call_with(self, fd, values):
+    def call_with(self, fd, values, this=None):
         """evaluate the function definition fd on constant argument values; returns its result"""
-        return self.call_function(fd, values, {}, 0, evaluated=True)
+        env = {}
+        if this is not None:
+            env['__this__'] = this
+        return self.call_function(fd, values, env, 0, evaluated=True)
